@@ -284,33 +284,35 @@ structure Options where
 
 def defaultSchemes : List Str := [sHttp, sHttps, sFtp]
 
+/-- `if c: filters.append(f)` -/
+def addIf (c : Bool) (f : Filter) (filters : List Filter) : List Filter :=
+  if c then filters ++ [f] else filters
+
 /-- `URLFiltersSetupTask._build_url_filters` followed by
 `URLFiltersPostURLImportSetupTask.process` (statement by statement). -/
-def buildFilters (a : Options) : List Filter := Id.run do
-  let mut filters : List Filter := [
+def buildFilters (a : Options) : List Filter :=
+  let filters : List Filter := [
     (if a.httpsOnly then Filter.httpsOnly else Filter.scheme defaultSchemes),
     Filter.recursive a.recursive a.pageRequisites,
     Filter.followFtp a.followFtp ]
-  if a.noParent then
-    filters := filters ++ [Filter.parent]
-  if !a.domains.isEmpty || !a.excludeDomains.isEmpty then
-    filters := filters ++ [Filter.backwardDomain a.domains a.excludeDomains]
-  if !a.hostnames.isEmpty || !a.excludeHostnames.isEmpty then
-    filters := filters ++ [Filter.hostname a.hostnames a.excludeHostnames]
-  if a.tries != 0 then
-    filters := filters ++ [Filter.tries a.tries]
-  if (a.level != 0 && a.recursive) || a.pageRequisitesLevel != 0 then
-    filters := filters ++ [Filter.level a.level a.pageRequisitesLevel]
-  if !a.acceptRegex.isEmpty || !a.rejectRegex.isEmpty then
-    filters := filters ++ [Filter.regex a.acceptRegex a.rejectRegex]
-  if !a.includeDirectories.isEmpty || !a.excludeDirectories.isEmpty then
-    filters := filters ++ [Filter.directory a.includeDirectories a.excludeDirectories]
-  if !a.accept.isEmpty || !a.reject.isEmpty then
-    filters := filters ++ [Filter.backwardFilename a.accept a.reject]
-  -- URLFiltersPostURLImportSetupTask
-  filters := filters ++ [Filter.spanHosts a.tableHostnames a.spanHosts
-                            a.spanAllowPageRequisites a.spanAllowLinkedPages]
-  return filters
+  let filters := addIf a.noParent Filter.parent filters
+  let filters := addIf (!a.domains.isEmpty || !a.excludeDomains.isEmpty)
+    (Filter.backwardDomain a.domains a.excludeDomains) filters
+  let filters := addIf (!a.hostnames.isEmpty || !a.excludeHostnames.isEmpty)
+    (Filter.hostname a.hostnames a.excludeHostnames) filters
+  let filters := addIf (a.tries != 0) (Filter.tries a.tries) filters
+  -- `args.level and args.recursive or args.page_requisites_level`
+  let filters := addIf ((a.level != 0 && a.recursive) || a.pageRequisitesLevel != 0)
+    (Filter.level a.level a.pageRequisitesLevel) filters
+  let filters := addIf (!a.acceptRegex.isEmpty || !a.rejectRegex.isEmpty)
+    (Filter.regex a.acceptRegex a.rejectRegex) filters
+  let filters := addIf (!a.includeDirectories.isEmpty || !a.excludeDirectories.isEmpty)
+    (Filter.directory a.includeDirectories a.excludeDirectories) filters
+  let filters := addIf (!a.accept.isEmpty || !a.reject.isEmpty)
+    (Filter.backwardFilename a.accept a.reject) filters
+  -- URLFiltersPostURLImportSetupTask: `demux_url_filter.url_filters.append(span_hosts_filter)`
+  filters ++ [Filter.spanHosts a.tableHostnames a.spanHosts
+                a.spanAllowPageRequisites a.spanAllowLinkedPages]
 
 /-! ### request-issuing skeleton of the processor sessions -/
 
